@@ -218,32 +218,37 @@ def check_session(repo, r, driver, bundled=False, boards=None):
         snapshots.append(dict(table))
     final = dict(table)
 
-    # ---- seat threads
-    for p in SEATS:
-        lab = f'client-{p}'
+    # ---- seat (connection) threads: every accepted connection, seated or refused
+    for lab, req, seated in adm:
         conn = by_client.get(lab)
         ops = r.ops.get('seat:' + lab)
-        if conn is None or ops is None or lab not in before:
+        if conn is None or ops is None or req is None:
             continue
-        q = [pl for (k, o, pl) in r.ops.get('main', []) if k == 'put' and o == inv.get('m2t' + p)]
-        ins = {('m2t', Player[p]): list(q), 'conn': messages(conn[2])}
+        try:
+            _team, pl, _v = PlayerThread.parse_connection_info(req)
+        except Exception:        # noqa: BLE001 — a request that does not parse kills the real thread too; not compared
+            continue
+        p = pl.name
+        # what main queued for that seat reaches THIS thread only if it was seated
+        q = [x for (k, o, x) in r.ops.get('main', []) if k == 'put' and o == inv.get('m2t' + p)] if seated else []
+        ins = {('m2t', pl): list(q), 'conn': messages(conn[2])}
         w = World(dict((k, list(v)) for k, v in ins.items()), dict(before[lab]), [dict(final)], False)
         outcome, out = run_py(ns, 'SeatThread', (), 'run', w)
         got, exp = world_tokens(out), real_tokens(ops, r.qmap)
         i = first_diff(got, exp)
         if i is not None or outcome[0] != 'ok':
-            diffs.append({'what': 'desugared-thread', 'thread': 'seat' + p, 'index': i, 'outcome': str(outcome)[:120],
+            diffs.append({'what': 'desugared-thread', 'thread': 'seat:' + lab, 'index': i, 'outcome': str(outcome)[:120],
                           'desugared': got[i] if i is not None and i < len(got) else None,
                           'real': exp[i] if i is not None and i < len(exp) else None, 'n_desugared': len(got), 'n_real': len(exp)})
             continue
         lines.append(lean_line('SeatThread', [], 'run', world_code(ins, before[lab], [final])))
-        expect.append((outcome, out, 'seat' + p))
+        expect.append((outcome, out, 'seat:' + lab))
 
     # ---- main
     main_ops = r.ops.get('main', [])
     if boards is not None and main_ops:
-        ins = {('t2m', Player[p]): [pl for (k, o, pl) in r.ops.get('seat:client-' + p, []) if k == 'put' and o == inv.get('t2m' + p)]
-               for p in SEATS}
+        ins = {('t2m', Player[p]): [pl for lab_, _, sd in adm if sd for (k, o, pl) in r.ops.get('seat:' + lab_, [])
+                                    if k == 'put' and o == inv.get('t2m' + p)] for p in SEATS}
         joined = [o for (k, o, pl) in main_ops if k == 'join']
         ins['accept'] = [(lab, None) for lab, _, _ in adm]
         ins['new_thread'] = ['seat:' + lab for lab, _, _ in adm]
